@@ -76,6 +76,16 @@ def o161(ctx):
         raise Unsupported("no filtered image with an extracted gain is stored into the stack", fn)
     axes = filt.axes
     ctx.count(1, {"extracted gain": tm.show(filt.gain)[:400]})
+    # the filter acts on the image's own frequency grid: the image is transformed as it is (no padded / resampled canvas)
+    ctx.count(1)
+    foreign = [n for n in tm.walk(filt.src) if n.op == "call" and str(n.args[0]) in ("numpy.pad", "numpy.resize", "scipy.ndimage.zoom", "numpy.tile")]
+    opaque_n = [A for A in axes if any(n.op == "call" for n in tm.walk(A.n))]
+    if foreign or opaque_n or getattr(filt, "cropped", False):
+        ctx.finding(Q, ev.node, "the image is filtered on a canvas of another size than the image (padded / cropped around the transform): the "
+                    "attenuation is then applied at the frequencies of that canvas, not at the image's own k/(N*pixel_size) grid, and the "
+                    "result is not a multiplier on the image's Fourier components", ev.node, m, image=tm.show(filt.src)[:120],
+                    grid=[tm.show(A.n)[:40] for A in axes])
+        return
     # layout offsets cancel for every size
     bad_layout = [e for e in it.events if e.kind == "fourier"]
     ctx.count(1, {"layout events": [(e.name, {k: tm.show(v) if isinstance(v, T) else str(v) for k, v in e.extra.items()}) for e in bad_layout]})
